@@ -53,6 +53,10 @@ def prepare_tree(case):
         dirs["_out-examples"] = {"files": {"ex.cmake": 0}, "dirs": {"more": {"files": {"deep.cmake": 1}, "dirs": {}}}}
         dirs["_out2"] = {"files": {"two.cmake": 2}, "dirs": {}}
         tree = {"files": tree["files"], "dirs": dirs}
+    if case.get("warm") is not None and len(tree["files"]) % 2 == 1:
+        # a backslash is an ordinary character of POSIX file names
+        tree = {"files": dict(tree["files"], **{"we\\ird.cmake": 3}),
+                "dirs": dict(tree["dirs"], **{"mod\\ules": {"files": {"inner.cmake": 2}, "dirs": {}}})}
     if case["auto"]:
         tree = T.ensure_lowercase_cmake(tree)
         if not T.has_lower_cmake(tree):
